@@ -128,7 +128,7 @@ def parse_log(path):
     return r
 
 
-def classify(p, rc, timed_out):
+def classify(p, rc, timed_out, termination_claim=False):
     """-> (status, note)"""
     if timed_out:
         return "timeout", "solver budget exhausted"
@@ -144,6 +144,10 @@ def classify(p, rc, timed_out):
     real = [c for c in fc if "unwinding assertion" not in c]
     if real:
         return "counterexample", "; ".join(sorted(set(real)))[:400]
+    if fc and termination_claim:
+        # the harness' unwind bound is derived from the input size (every loop consumes input): a loop that needs more
+        # iterations than that does not terminate. Candidate only: it becomes a violation iff the native replay hangs.
+        return "possible_nontermination", "unwinding assertion failed in a harness whose bound is derived from the input size: a loop may not terminate; the inputs are taken from CBMC's trace of the failed unwinding assertion and replayed natively under a time limit (a hang is the reproduction)"
     if fc:
         return "unwind_too_small", "unwinding assertion failed (bound too small)"
     return "error", f"FAILED without failed checks (exit {rc})"
@@ -162,7 +166,7 @@ def run_harness(group, root, h, tier, extra=None, logname=None):
     wall = time.time() - t0
     timed_out = p.returncode in (124, 137)
     parsed = parse_log(log)
-    status, note = classify(parsed, p.returncode, timed_out)
+    status, note = classify(parsed, p.returncode, timed_out, bool(h.get("termination_claim")))
     rec = {"harness": h["name"], "group": group, "status": status, "note": note, "wall_s": round(wall, 1),
            "limits": {"mem_gb": mem, "timeout_s": to}, "flags": flags, "log": log}
     for k in ("symex_s", "program_steps", "vccs", "vccs_remaining", "sat_variables", "sat_clauses", "solver_s",
@@ -182,24 +186,31 @@ def playback_values(group, root, h, tier):
     h2 = dict(h, mem_gb=max(2 * mem, 16), timeout=max(to, 1800))
     rec = run_harness(group, root, h2, tier, extra=["-Z", "concrete-playback", "--concrete-playback=print"],
                       logname=h["name"] + ".playback")
-    vals = []
-    in_block = False
+    # Kani prints one playback test per failing check AND per satisfied cover; only the former are counterexamples.
+    blocks = []  # (kind, [byte vectors])
+    kind = None
+    cur = None
     with open(rec["log"], errors="replace") as f:
         for line in f:
-            if "let concrete_vals" in line:
-                if vals:
-                    break  # first test only
-                in_block = True
+            m = re.match(r"^\s*/// Check for `([^`]*)`", line)
+            if m:
+                kind = m.group(1)
                 continue
-            if in_block:
+            if "let concrete_vals" in line:
+                cur = []
+                continue
+            if cur is not None:
                 if "];" in line and "vec!" not in line:
-                    in_block = False
+                    blocks.append((kind or "?", cur))
+                    cur = None
+                    kind = None
                     continue
                 m = _vec_re.match(line)
                 if m:
                     body = m.group(1).strip()
-                    vals.append([int(x) for x in body.split(",") if x.strip()] if body else [])
-    return vals
+                    cur.append([int(x) for x in body.split(",") if x.strip()] if body else [])
+    failing = [b for k, b in blocks if k != "cover"]
+    return failing[0] if failing else []
 
 
 def _names_by_file(cfg):
@@ -215,8 +226,42 @@ def _names_by_file(cfg):
     return out
 
 
+_trace_val_re = re.compile(r"return_value\$\$.*?vk3imp\d+(any_[a-z0-9]+)=.*\(([01 ]+)\)\s*$")
+
+
+def trace_values(group, root, h, tier, prop_pattern):
+    """inputs from CBMC's own trace (`--output-format old --cbmc-args --trace`): every harness input is the return value
+    of one `vk::any_*` call, so the sequence of those return values in the trace of a failed property IS the input vector.
+    Used where Kani's concrete playback has nothing to offer (unwinding assertions)."""
+    mem, to = _limits(h, tier)
+    h2 = dict(h, mem_gb=max(2 * mem, 16), timeout=max(to, 1800))
+    rec = run_harness(group, root, h2, tier, extra=["--output-format", "old", "--cbmc-args", "--trace"], logname=h["name"] + ".trace")
+    out = []
+    cur = None
+    with open(rec["log"], errors="replace") as f:
+        for line in f:
+            if line.startswith("Trace for "):
+                if cur is not None and cur[1]:
+                    out.append(cur)
+                name = line[len("Trace for "):].strip().rstrip(":")
+                cur = (name, []) if re.search(prop_pattern, name) else None
+                continue
+            if cur is not None:
+                m = _trace_val_re.search(line)
+                if m:
+                    bits = m.group(2).replace(" ", "")
+                    n = int(bits, 2)
+                    cur[1].append(list(n.to_bytes(len(bits) // 8, "little")))
+    if cur is not None and cur[1]:
+        out.append(cur)
+    return out
+
+
 def replay_target_dir(group):
     return os.path.join(CACHE, "replay", group)
+
+
+NATIVE_TIMEOUT_S = 120
 
 
 def run_native(group, h_name, module, vals, release):
@@ -237,8 +282,17 @@ def run_native(group, h_name, module, vals, release):
         cmd += ["--", f"verif_replay_{h_name}", "--exact", "--nocapture", "--test-threads", "1"]
         # the test path is <module>::verif_replay_entries::verif_replay_<name>
         cmd[cmd.index(f"verif_replay_{h_name}")] = f"{module}::verif_replay_entries::verif_replay_{h_name}"
-        p = subprocess.run(cmd, cwd=info["root"], env=env, stdout=subprocess.PIPE, stderr=subprocess.STDOUT, text=True)
-        out = p.stdout
+        # build first (no time limit), then run under a time limit: a replay that does not finish is a hang
+        b = subprocess.run(cmd[:cmd.index("--")] + ["--no-run"], cwd=info["root"], env=env, stdout=subprocess.PIPE, stderr=subprocess.STDOUT, text=True)
+        if b.returncode != 0:
+            out = b.stdout
+        else:
+            try:
+                p = subprocess.run(cmd, cwd=info["root"], env=env, stdout=subprocess.PIPE, stderr=subprocess.STDOUT, text=True, timeout=NATIVE_TIMEOUT_S)
+                out = p.stdout
+            except subprocess.TimeoutExpired:
+                subprocess.run(["pkill", "-f", f"verif_replay_{h_name}"], check=False)
+                return True, ["non_termination"], f"the native replay did not finish within {NATIVE_TIMEOUT_S} s on the recorded inputs (hang)"
     finally:
         shutil.rmtree(info["root"], ignore_errors=True)
     if "could not compile" in out:
